@@ -370,6 +370,12 @@ pub fn replay(args: &[String]) -> i32 {
                             break;
                         }
                     }
+                    if node.weight() == 0 {
+                        let empty: Pop = Vec::new();
+                        let ob = guarded(|| select_marker_tree(&case["tree"], &node, &empty, &mut rng))
+                            .unwrap_or_else(|m| json!({"k": "panic", "msg": m}));
+                        check(ob, &mut n, &mut bad, &mut out);
+                    }
                 }
                 Ok(None) => { check(json!({"k": "construction_refused"}), &mut n, &mut bad, &mut out); }
                 Err(m) => { check(json!({"k": "panic", "msg": m}), &mut n, &mut bad, &mut out); }
@@ -390,6 +396,12 @@ pub fn replay(args: &[String]) -> i32 {
                         if !check(ob, &mut n, &mut bad, &mut out) {
                             break;
                         }
+                    }
+                    // a total weight of zero is the zero-weight error whatever the population - an EMPTY one too
+                    if ws.iter().all(|w| *w == 0) {
+                        let empty: Pop = Vec::new();
+                        let ob = guarded(|| select_dyn(&d, &empty, &mut rng)).unwrap_or_else(|m| json!({"k": "panic", "msg": m}));
+                        check(ob, &mut n, &mut bad, &mut out);
                     }
                 }
             }
